@@ -1,10 +1,12 @@
 (* C12 - hover describes the element under the cursor and its range contains the cursor.
    Model: Model/Hover.v (hoverAtPos at body level) and Model/ValueHover.v (which sub-expression of a value answers,
    i.e. the range of the hover data, for every constraint and expression kind) and Model/TypeHover.v (what the hover on a
-   reference says: address, type description, target description), compared with HoverAtPos on every run. *)
+   reference says: address, type description, target description), compared with HoverAtPos on every run, and
+   Model/HoverData.v (Constraint.EmptyHoverData: WHAT the hover of a list / set / tuple / map / object value or a
+   fixed value says), compared with EmptyHoverData on every run. *)
 From Coq Require Import String List ZArith Bool.
 From HV Require Import Base.Sexp Base.Pos Model.Schema Model.Ast Model.Merge Model.Hover Model.Origins Model.ValueTokens Model.ValueHover
-                       Proofs.HoverProofs Proofs.ValueTokensProofs Proofs.ValueHoverProofs Model.TypeHover Proofs.TypeHoverProofs.
+                       Proofs.HoverProofs Proofs.ValueTokensProofs Proofs.ValueHoverProofs Model.TypeHover Proofs.TypeHoverProofs Model.Snippet Model.HoverData Proofs.HoverDataProofs.
 
 (* whenever hover data is returned for an attribute name, block type or label - at any nesting
    depth - its range contains the cursor *)
@@ -53,3 +55,34 @@ Theorem C12_object_description_independent_of_map_order : forall f ats ats' lvl,
   type_content f (TObject ats) lvl = type_content f (TObject ats') lvl.
 Proof. exact object_content_independent_of_map_order. Qed.
 Print Assumptions C12_object_description_independent_of_map_order.
+
+(* ---- the content of the hover of a value (Model/HoverData.v) ---- *)
+
+(* The hover of an object value lists exactly the declared attributes: the content is the braces (fenced at the top
+   level) around one line per declared attribute, in the order of the names, and the line of an attribute carries its
+   name, the description of ITS constraint one level deeper, and exactly the flags the schema gives it. *)
+Theorem C12_object_value_hover_lists_declared_attributes : forall f ats an nm ip lvl s,
+  ats <> nil ->
+  ehd (S f) (CObject ats an nm ip) lvl = Some (Some s) ->
+  exists ls, s = object_text lvl ls /\ Forall2 (line_describes (ehd f) lvl) ats ls.
+Proof. exact ehd_object_listing. Qed.
+Print Assumptions C12_object_value_hover_lists_declared_attributes.
+
+(* ... where the flags shown for an attribute are determined by its optional and sensitive marks alone *)
+Theorem C12_object_value_hover_flags : forall fl,
+  flag_comment fl =
+  match af_optional fl, af_sensitive fl with
+  | true, true => " # optional, sensitive"
+  | true, false => " # optional"
+  | false, true => " # sensitive"
+  | false, false => ""
+  end%string.
+Proof. exact flag_comment_cases. Qed.
+Print Assumptions C12_object_value_hover_flags.
+
+(* content, when the description of a value has any, is not the empty string (every constraint that is not itself a
+   fixed value; a fixed number is shown by the text of the number) *)
+Theorem C12_value_description_not_empty : forall f c lvl s,
+  not_lit_value c -> ehd f c lvl = Some (Some s) -> s <> ""%string.
+Proof. exact ehd_content_nonempty. Qed.
+Print Assumptions C12_value_description_not_empty.
